@@ -301,16 +301,21 @@ def fresh(s, base):
 def rename_type(s, old, new):
     """rename a public type and every reference to it"""
     ol = old.lower()
+
+    def refers(spelling):
+        # a reference spelled exactly like a primitive type denotes the built-in type even when a public type has that
+        # name in another letter case (`UInt8` next to `uint8`)
+        return spelling.lower() == ol and spelling not in S.PRIM_SIZE
     for _, _, e, _ in walk_elems(s):
-        if e['k'] == 'ref' and e['type'].lower() == ol:
+        if e['k'] == 'ref' and refers(e['type']):
             e['type'] = new
-        if e['k'] in ('enum', 'set') and e['enc'].lower() == ol:
+        if e['k'] in ('enum', 'set') and refers(e['enc']):
             e['enc'] = new
         if e.get('valueRef') and e['valueRef'].split('.', 1)[0].lower() == ol:
             e['valueRef'] = new + '.' + e['valueRef'].split('.', 1)[1]
     for _, _, l, _ in walk_levels(s):
         for f in l.get('fields', []):
-            if f['type'].lower() == ol:
+            if refers(f['type']):
                 f['type'] = new
             if f.get('valueRef') and f['valueRef'].split('.', 1)[0].lower() == ol:
                 f['valueRef'] = new + '.' + f['valueRef'].split('.', 1)[1]
